@@ -79,6 +79,31 @@ def variant_field_types(facts, adt_key, variant):
 
 
 def run(ck, facts, tier):
+    # ------------------------------------------------------------------ DEFAULT-CALLBACKS
+    R = "C25.DEFAULT-CALLBACKS"
+    ck.rule(R, "K5 (siblings): the six default free-variable callbacks of TypeFolder / FallibleTypeFolder (fold_free_var_{ty,lifetime,const} "
+               "and try_fold_free_var_*) - what a folder that overrides nothing does with a free variable met under `outer_binder` "
+               "binders - all rebuild the variable shifted back in by `outer_binder` (BoundVar::shifted_in_from(outer_binder)); one "
+               "sibling that forgets the shift makes the identity fold capture free variables of that kind under inner binders")
+    from kit import params_of_type as _pot
+    n_cb = 0
+    for tr, pre in (("TypeFolder", "fold_free_var_"), ("FallibleTypeFolder", "try_fold_free_var_")):
+        for kind in ("ty", "lifetime", "const"):
+            key = "chalk_ir::fold::%s::%s%s" % (tr, pre, kind)
+            cb = facts.body(key)
+            if cb is None or cb.thir is None:
+                ck.violation(R, "missing-anchor:%s::%s%s" % (tr, pre, kind), "", "default callback not found")
+                continue
+            n_cb += 1
+            ob = _pot(cb, "DebruijnIndex") or {"outer_binder"}
+            th = facts.thir(key)
+            shifts = [c for c in calls(th, "shifted_in_from") if var_name(c["args"][-1]) in ob]
+            inst = "%s::%s%s" % (tr, pre, kind)
+            if shifts:
+                ck.ok(R, inst, "shifted_in_from(outer_binder)")
+            else:
+                ck.violation(R, inst, cb.where(), "the default callback rebuilds the variable without shifting it in by outer_binder")
+    ck.floor(R, "default-callbacks", n_cb, 6)
     # ------------------------------------------------------------------ REBUILD
     R = "C25.REBUILD"
     ck.rule(R, "K1/K2: each arm of Ty / Lifetime / Const::try_super_fold_with rebuilds the same variant and folds every term-carrying "
